@@ -101,4 +101,54 @@ example : (match run [] [seg a12 d3 1 0, seg a1 d23 2 1, seg a1 d23 1 2, seg a12
     | .ok (_, ds) => ds.map (·.map (·.tag))
     | .panic _ => []) = [[2, 1], [0, 3]] := by decide +kernel
 
+/-! ## once: a delivered message is forgotten, an incomplete one is kept -/
+
+theorem regFind_erase (r : Registry) (k : Key) : regFind (regErase r k) k = none := by
+  unfold regFind regErase
+  rw [Option.map_eq_none_iff, List.find?_eq_none]
+  intro x hx
+  have := (List.mem_filter.mp hx).2
+  simpa using this
+
+theorem regFind_set (r : Registry) (k : Key) (s : List (Option Seg)) : regFind (regSet r k s) k = some s := by
+  simp [regFind, regSet]
+
+/-- **Once.**  On the call that completes a message the registry entry of its key (source address,
+destination address, reference) is removed: none of the delivered segments is retained, so a
+later delivery under that key can only be built from segments that arrive afterwards — the same
+arrivals are never delivered twice.  On a call that does not complete it, the entry holds exactly
+the slots with this segment in place. -/
+theorem C10_once (r : Registry) (p : Seg) (h : ConcatHeader)
+    (hh : concatHeader p.udh = .ok (some h)) (h0 : h.seq ≠ 0) (h1 : h.seq ≤ h.total)
+    (slots : List (Option Seg))
+    (hs : (regFind r ⟨p.src, p.dst, h.reference⟩).getD (List.replicate h.total none) = slots)
+    (hl : slots.length = h.total) :
+    ∃ r' ds, step r p = .ok (r', ds) ∧
+      (Filled (slots.set (h.seq - 1) (some p)) → regFind r' ⟨p.src, p.dst, h.reference⟩ = none) ∧
+      (¬ Filled (slots.set (h.seq - 1) (some p)) →
+        regFind r' ⟨p.src, p.dst, h.reference⟩ = some (slots.set (h.seq - 1) (some p))) := by
+  obtain ⟨o, ho, hb⟩ := concatHeader_ok p.udh
+  rw [hh] at ho
+  cases ho
+  obtain ⟨ht, hsq⟩ := hb h rfl
+  have hi : (h.seq + 255) % 256 = h.seq - 1 := by omega
+  have hguard : (decide (h.seq = 0) || decide (h.seq > h.total)) = false := by
+    simp only [Bool.or_eq_false_iff, decide_eq_false_iff_not]; omega
+  unfold step
+  have hlne : ¬ (slots.length ≠ h.total) := by simp [hl]
+  have hlt : h.seq - 1 < slots.length := by omega
+  simp only [hh, hguard, Bool.false_eq_true, ↓reduceIte, hs, hlne, setSlot, hi, hlt]
+  have hiff := isDone_iff (slots.set (h.seq - 1) (some p)) h.total (by rw [List.length_set]; exact hl) ht
+  by_cases hd : isDone (slots.set (h.seq - 1) (some p)) h.total = true
+  · simp only [hd, ↓reduceIte]
+    exact ⟨_, _, rfl, fun _ => regFind_erase _ _, fun hn => absurd (hiff.mp hd) hn⟩
+  · simp only [hd, Bool.false_eq_true, ↓reduceIte]
+    exact ⟨_, _, rfl, fun hf => absurd (hiff.mpr hf) hd, fun _ => regFind_set _ _ _⟩
+
+/-- a segment that re-arrives after its message was delivered starts a fresh message: with N > 1 it is
+stored, not delivered (non-vacuity of `C10_once` on a concrete history: 1,2 delivered; 2 again: nothing) -/
+example : (match run [] [seg a1 d3 1 0, seg a1 d3 2 1, seg a1 d3 2 2] with
+    | .ok (r, ds) => (ds.map (·.map (·.tag)), r.length)
+    | .panic _ => ([], 0)) = ([[0, 1]], 1) := by decide +kernel
+
 end Smpp.Properties.C10
